@@ -425,6 +425,37 @@ def _param_keys(cx, f, v, i):
             return {"?"}
     else:
         t = _entry_of(f, t)
+    # values handed back by a local helper (`explicit_or_element(&params, "x", translation[0])?`)
+    import elems as E
+
+    def root_call(y):
+        y = mir.strip_refs(y)
+        for _ in range(8):
+            if y[0] == "proj":
+                y = mir.strip_refs(y[1])
+            elif y[0] == "call" and isinstance(y[1], str) and y[1].endswith("Try>::branch") and y[2]:
+                y = mir.strip_refs(y[2][0])
+            else:
+                break
+        return y[1] if y[0] == "call" and isinstance(y[1], str) else None
+
+    def deep_look(y, depth=0):
+        if not isinstance(y, tuple) or depth > 6:
+            return y
+        rc = root_call(y)
+        y2 = y
+        if rc is not None and cx.f.has_fn(rc) and not rc.startswith(K.PP + "::") and rc.startswith("inner_op::"):
+            y2 = E.look_through_calls(f, y)
+            if y2 is not y:
+                return y2
+        if y2[0] in ("bin",):
+            return (y2[0], y2[1], deep_look(y2[2], depth + 1), deep_look(y2[3], depth + 1))
+        if y2[0] == "phi":
+            return (y2[0], y2[1], tuple(deep_look(o, depth + 1) for o in y2[2]))
+        if y2[0] == "call" and len(y2) > 2:
+            return (y2[0], y2[1], tuple(deep_look(o, depth + 1) for o in y2[2])) + tuple(y2[3:])
+        return y2
+    t = deep_look(t)
     keys = set()
 
     def visit(x):
@@ -880,41 +911,74 @@ def r_alias_guard(cx):
     """helmert::new takes each element from its scalar alias when that is given (non-zero) and from the list alias
     otherwise: `if real(K)? != 0. { real(K)? } else { list[i] }`. The key tested and the key read in the guarded branch
     are the same K - testing `rx` while reading `ry` drops a given `ry` whenever `rx` is zero."""
-    f = cx.f.fn("inner_op::helmert::new")
+    new = cx.f.fn("inner_op::helmert::new")
     n = 0
-    for bb in sorted(f.reachable()):
-        t = f.term(bb)
-        if t["k"] != "switch":
-            continue
-        c = f.operand(t["discr"], f.end_point(bb))
-        if not (c[0] == "bin" and c[1] in ("Ne", "Eq") and _fzero(c[3])):
-            continue
-        kc = _keys_deep(f, c[2])
-        if len(kc) != 1:
-            continue
-        kcond = next(iter(kc))
-        false_bb = [b for v, b in t["targets"] if v == 0]
-        taken = t["otherwise"] if c[1] == "Ne" else (false_bb[0] if false_bb else None)
-        if taken is None:
-            continue
-        # reads of scalar parameters in the blocks reached from the taken side before the join
-        other = (false_bb[0] if false_bb else None) if c[1] == "Ne" else t["otherwise"]
-        region = f.reach_from([taken]) - (f.reach_from([other]) if other is not None else set())
-        keys = set()
-        for b2, t2 in f.calls():
-            if b2 in region and (f.callee(t2) or "") == K.PP + "::real":
-                k = K._const_key(f.arg_terms(b2)[1])
-                if k:
-                    keys.add(k)
-        if not keys:
-            continue
-        n += 1
-        ok = keys == {kcond}
-        cx.ob("R-ALIAS-GUARD", "new/%s" % kcond, ok,
-              "the scalar alias `%s` is used exactly when `%s` is given" % (kcond, kcond) if ok else
-              "helmert::new tests `%s` but reads %s in the guarded branch: a given %s is dropped or a missing one used, "
-              "depending on another parameter" % (kcond, ", ".join(sorted(keys)), ", ".join(sorted(keys - {kcond})) or kcond),
-              cx.where(t["span"]))
+    fns = [(new, 1)]
+    for name in sorted(cx.f.lib["fns"]):
+        if name.startswith("inner_op::helmert::") and "::tests" not in name and "{closure" not in name and name != "inner_op::helmert::new":
+            calls = sum(1 for bb, t in new.calls() if (new.callee(t) or "") == name)
+            if calls:
+                fns.append((cx.f.fn(name), calls))     # a local helper: each call site is one guarded alias
+
+    def key_terms(g, term):
+        """keys (literal, or the helper's own key argument) of the real() reads a term is built from"""
+        out = set()
+
+        def vis(y):
+            if y[0] == "call" and isinstance(y[1], str) and y[1] == K.PP + "::real" and len(y[2]) > 1:
+                k = K._const_key(y[2][1])
+                kt = mir.strip_refs(y[2][1])
+                out.add(k if k is not None else ("arg", kt[1]) if kt[0] == "arg" else None)
+            return True
+        mir.walk(term, vis)
+        out.discard(None)
+        return out
+    for f, weight in fns:
+        for bb in sorted(f.reachable()):
+            t = f.term(bb)
+            if t["k"] != "switch":
+                continue
+            c = f.operand(t["discr"], f.end_point(bb))
+            if not (c[0] == "bin" and c[1] in ("Ne", "Eq") and _fzero(c[3])):
+                continue
+            kc = key_terms(f, c[2]) if f is not new else set(_keys_deep(f, c[2]))
+            if len(kc) != 1:
+                continue
+            kcond = next(iter(kc))
+            false_bb = [b for v, b in t["targets"] if v == 0]
+            taken = t["otherwise"] if c[1] == "Ne" else (false_bb[0] if false_bb else None)
+            if taken is None:
+                continue
+            # reads of scalar parameters in the blocks reached from the taken side before the join
+            other = (false_bb[0] if false_bb else None) if c[1] == "Ne" else t["otherwise"]
+            region = f.reach_from([taken]) - (f.reach_from([other]) if other is not None else set())
+            keys = set()
+            for b2, t2 in f.calls():
+                if b2 in region and (f.callee(t2) or "") == K.PP + "::real":
+                    k = K._const_key(f.arg_terms(b2)[1])
+                    kt = mir.strip_refs(f.arg_terms(b2)[1])
+                    if k:
+                        keys.add(k)
+                    elif kt[0] == "arg":
+                        keys.add(("arg", kt[1]))
+            if not keys:
+                # no second read: the value tested is itself the value used (`let v = real(k)?; if v != 0. { v } ..`)
+                import elems as E
+                rt = E.return_term(f)
+                if f is not new and rt is not None and _mentions_value(rt, mir.strip_refs(c[2])):
+                    n += weight
+                    cx.ob("R-ALIAS-GUARD", "new/%s(key)" % f.name.rsplit("::", 1)[-1], True,
+                          "the value tested against zero is the value handed back", cx.where(t["span"]))
+                continue
+            n += weight
+            ok = keys == {kcond}
+            label = kcond if isinstance(kcond, str) else "%s(key)" % f.name.rsplit("::", 1)[-1]
+            cx.ob("R-ALIAS-GUARD", "new/%s" % label, ok,
+                  "the scalar alias `%s` is used exactly when `%s` is given" % (label, label) if ok else
+                  "helmert::new tests `%s` but reads %s in the guarded branch: a given %s is dropped or a missing one used, "
+                  "depending on another parameter" % (label, ", ".join(sorted(str(x) for x in keys)),
+                                                      ", ".join(sorted(str(x) for x in keys - {kcond})) or label),
+                  cx.where(t["span"]))
     cx.count("R-ALIAS-GUARD", "guards", n)
 
 
